@@ -99,10 +99,85 @@ def mutants():
                         new = line[:m.start()] + r + line[m.end():]
                         if new != line:
                             out.append({'file': f, 'line': ln + 1, 'col': m.start(), 'old': m.group(0), 'new': r, 'text': new})
+    out.extend(line_mutants())
     # stable ids
     for m in out:
         m['id'] = hashlib.sha1(f"{m['file']}:{m['line']}:{m['col']}:{m['old']}:{m['new']}".encode()).hexdigest()[:10]
     return out
+
+def eligible_lines():
+    """(file, 0-based line number, line) of every non-test, non-hook, non-comment code line"""
+    for f, (lines, end) in regions().items():
+        in_hook = False
+        in_doc = False
+        for ln in range(end):
+            line = lines[ln]
+            st = line.strip()
+            if st.startswith('/**') or st.startswith('/*'):
+                in_doc = True
+            if in_doc:
+                if '*/' in st:
+                    in_doc = False
+                continue
+            if 'verif-hooks' in line:
+                in_hook = True
+            if in_hook:
+                if line.rstrip() in ('}', '    }'):
+                    in_hook = False
+                continue
+            if st.startswith('//') or st.startswith('#[') or st.startswith('use ') or st.startswith('*') or not st:
+                continue
+            yield f, ln, line
+
+def line_mutants():
+    """second batch: whole-line and structural slips"""
+    out = []
+    def add(f, ln, old, new, text):
+        out.append({'file': f, 'line': ln + 1, 'col': 0, 'old': old, 'new': new, 'text': text})
+    for f, ln, line in eligible_lines():
+        st = code_part(line).strip()
+        ind = line[:len(line) - len(line.lstrip())]
+        # a dropped conjunct / disjunct / pattern alternative / adaptor / statement
+        if st.startswith('&& ') or st.startswith('|| '):
+            add(f, ln, 'line:' + st[:40], '(conjunct removed)', '')
+        elif st.startswith('| ') and '=>' not in st:
+            add(f, ln, 'line:' + st[:40], '(pattern alternative removed)', '')
+        elif st.startswith('| ') and '=>' in st:
+            # last alternative of an arm: drop the alternative, keep the arrow
+            add(f, ln, 'line:' + st[:40], '(pattern alternative removed)', None)
+        elif st.startswith('.') and st.endswith(')') and not st.startswith('.context('):
+            add(f, ln, 'line:' + st[:40], '(adaptor removed)', '')
+        elif st.endswith(';') and not re.match(r'(let |use |return|const |pub |type |static |break|continue)', st) and '=>' not in st and not st.startswith('}'):
+            add(f, ln, 'line:' + st[:40], '(statement removed)', '')
+        m = re.match(r'^(\s*(?:\} else )?if )(?!let )(.*)( \{)$', code_part(line).rstrip())
+        if m:
+            for c in ('true', 'false'):
+                add(f, ln, 'if ' + m.group(2)[:40], 'if ' + c, m.group(1) + c + m.group(3))
+        for mm in re.finditer(r'(\b[\w.]+(?:\(\))?) (<=|<|>=|>) ([\w.]+(?:\(\))?)', code_part(line)):
+            a, op, b = mm.groups()
+            if a != b and not a[0].isdigit():
+                new = line[:mm.start()] + f'{b} {op} {a}' + line[mm.end():]
+                add(f, ln, mm.group(0), f'{b} {op} {a}', new)
+        for mm in re.finditer(r'\+= 1\b', code_part(line)):
+            for r in ('+= 0', '+= 2'):
+                add(f, ln, '+= 1', r, line[:mm.start()] + r + line[mm.end():])
+        for mm in re.finditer(r'(?<![\w.])(\d{2,})(?![\w.])', code_part(line)):
+            n = int(mm.group(1))
+            for r in (n - 1, n + 1):
+                add(f, ln, mm.group(1), str(r), line[:mm.start()] + str(r) + line[mm.end():])
+    # the "last alternative" deletions need the arrow kept: rewrite `| PAT => X` as `=> X` is not
+    # valid Rust; instead move the arrow part to the previous line
+    regs = {f: v[0] for f, v in regions().items()}
+    fixed = []
+    for m in out:
+        if m['text'] is None:
+            lines = regs[m['file']]
+            cur = lines[m['line'] - 1]
+            arrow = cur[cur.index('=>'):]
+            m['text'] = ''
+            m['prev_text'] = lines[m['line'] - 2].rstrip() + ' ' + arrow
+        fixed.append(m)
+    return fixed
 
 def make_copy(dst):
     shutil.rmtree(dst, ignore_errors=True)
@@ -112,6 +187,8 @@ def make_copy(dst):
 def apply(dst, m, orig):
     lines = list(orig[m['file']])
     lines[m['line'] - 1] = m['text']
+    if m.get('prev_text') is not None:
+        lines[m['line'] - 2] = m['prev_text']
     open(f"{dst}/{m['file']}", 'w').write('\n'.join(lines))
 
 def restore(dst, orig):
